@@ -122,8 +122,8 @@ def combOnSource (cfg : CombCfg) (st : CombSt) (i : Nat) (source : Text) (conten
     let inner := streamSM (content'.getD []) cfg.innerMap ⟨cfg.columns, false⟩
     (inner.evs.foldl combInnerEv st1, [])
   else
-    let (sm, evs, g) := globalSource st.sourceMapping source content
-    ({ st with sourceMapping := sm, sourceIndexMapping := lmInsert 0 st.sourceIndexMapping i g }, evs)
+    let r := globalSource st.sourceMapping source content
+    ({ st with sourceMapping := r.1, sourceIndexMapping := lmInsert 0 st.sourceIndexMapping i r.2.2 }, r.2.1)
 
 def combOnName (st : CombSt) (i : Nat) (name : Text) : CombSt :=
   { st with nameIndexMapping := lmInsert 0 st.nameIndexMapping i (-2)
@@ -138,9 +138,9 @@ def combPass (st : CombSt) (chunk : Option Text) (m : Mapping) (sourceIndex orig
     let fni0 : Int := if nameIndex ≥ 0 then (st.nameIndexMapping[nameIndex.toNat]?).getD (-1) else -1
     if fni0 == -2 then
       let name := st.nameIndexValueMapping.getD nameIndex.toNat []
-      let (nm, evs, g) := globalName st.nameMapping name
-      let st' := { st with nameMapping := nm, nameIndexMapping := lmInsert 0 st.nameIndexMapping nameIndex.toNat g }
-      (st', evs ++ [.chunk chunk ⟨m.gl, m.gc, some ⟨finalSourceIndex.toNat, origLine.toNat, origCol.toNat, some g⟩⟩])
+      let r := globalName st.nameMapping name
+      let st' := { st with nameMapping := r.1, nameIndexMapping := lmInsert 0 st.nameIndexMapping nameIndex.toNat r.2.2 }
+      (st', r.2.1 ++ [.chunk chunk ⟨m.gl, m.gc, some ⟨finalSourceIndex.toNat, origLine.toNat, origCol.toNat, some r.2.2⟩⟩])
     else
       (st, [.chunk chunk ⟨m.gl, m.gc, some ⟨finalSourceIndex.toNat, origLine.toNat, origCol.toNat,
               if fni0 ≥ 0 then some fni0.toNat else none⟩⟩])
@@ -162,6 +162,79 @@ def combNoInner (cfg : CombCfg) (st : CombSt) (chunk : Option Text) (m : Mapping
         (r.1, .source len cfg.innerName st.innerSource :: r.2)
     else combPass st chunk m sourceIndex origLine origCol nameIndex
 
+/-- identity-mapping check (helpers.rs:818-859): may the original column be advanced by `loc`? -/
+def combAdj (st : CombSt) (seg : InnerSeg) (innerChunk : Text) (loc : Int) : Bool :=
+  if loc > 0 then
+    match innerContentLines st seg.src.toNat with
+    | some lines =>
+      -- `(inner_original_line as usize).wrapping_sub(1)`: fix F5
+      if seg.line ≤ 0 then false else
+      match lines[seg.line.toNat - 1]? with
+      | some ln =>
+        let oc := csub ln seg.col.toNat (seg.col.toNat + loc.toNat)
+        oc.length ≤ innerChunk.length && bget innerChunk 0 oc.length == some oc
+      | none => false
+    | none => false
+  else false
+
+/-- "emit source when needed and compute global source index" (helpers.rs:863-887) -/
+def combSrcResolve (st : CombSt) (isi : Nat) : CombSt × List Ev × Int :=
+  let si0 : Int := (st.innerSourceIndexMapping[isi]?).getD (-2)
+  if si0 == -2 then
+    let sc := (st.innerSourceIndexValueMapping[isi]?).getD ([], none)
+    let r := globalSource st.sourceMapping sc.1 sc.2
+    ({ st with sourceMapping := r.1, innerSourceIndexMapping := lmInsert 0 st.innerSourceIndexMapping isi r.2.2 }, r.2.1, (r.2.2 : Int))
+  else (st, [], si0)
+
+/-- "emit name when needed and compute global name index" (helpers.rs:889-976) -/
+def combNameResolve (st1 : CombSt) (isi : Nat) (seg : InnerSeg) (ini nameIndex ioc : Int) : CombSt × List Ev × Int :=
+  if ini ≥ 0 then
+    let f0 : Int := (st1.innerNameIndexMapping[ini.toNat]?).getD (-2)
+    if f0 == -2 then
+      match st1.innerNameIndexValueMapping[ini.toNat]? with
+      | some name =>
+        let r := globalName st1.nameMapping name
+        ({ st1 with nameMapping := r.1, innerNameIndexMapping := lmInsert 0 st1.innerNameIndexMapping ini.toNat r.2.2 }, r.2.1, (r.2.2 : Int))
+      | none =>
+        ({ st1 with innerNameIndexMapping := lmInsert 0 st1.innerNameIndexMapping ini.toNat (-1) }, [], -1)
+    else (st1, [], f0)
+  else if nameIndex ≥ 0 then
+    match innerContentLines st1 isi with
+    | some lines =>
+      -- `unwrap_or_default()`: fix F5
+      let name := st1.nameIndexValueMapping.getD nameIndex.toNat []
+      let origName : Text :=
+        if seg.line ≤ 0 then [] else
+        match lines[seg.line.toNat - 1]? with
+        | some ln => csub ln ioc.toNat (ioc.toNat + name.length)
+        | none => []
+      if name == origName then
+        let f0 : Int := (st1.nameIndexMapping[nameIndex.toNat]?).getD (-2)
+        if f0 == -2 then
+          match st1.nameIndexValueMapping[nameIndex.toNat]? with
+          | some name =>
+            let r := globalName st1.nameMapping name
+            ({ st1 with nameMapping := r.1, nameIndexMapping := lmInsert 0 st1.nameIndexMapping nameIndex.toNat r.2.2 }, r.2.1, (r.2.2 : Int))
+          | none =>
+            ({ st1 with nameIndexMapping := lmInsert 0 st1.nameIndexMapping nameIndex.toNat (-1) }, [], -1)
+        else (st1, [], f0)
+      else (st1, [], -1)
+    | none => (st1, [], -1)
+  else (st1, [], -1)
+
+/-- "We have a inner mapping to original source" (helpers.rs:816-992) -/
+def combFound (st : CombSt) (chunk : Option Text) (m : Mapping) (seg : InnerSeg) (innerChunk : Text)
+    (origCol nameIndex : Int) : CombSt × List Ev :=
+  let isi := seg.src.toNat
+  let loc := origCol - seg.gc
+  let adj := combAdj st seg innerChunk loc
+  let ioc : Int := if adj then seg.col + loc else seg.col
+  let ini : Int := if adj then -1 else seg.name
+  let rS := combSrcResolve st isi
+  let rN := combNameResolve rS.1 isi seg ini nameIndex ioc
+  (rN.1, rS.2.1 ++ rN.2.1 ++ [.chunk chunk ⟨m.gl, m.gc,
+      if rS.2.2 ≥ 0 then some ⟨rS.2.2.toNat, seg.line.toNat, ioc.toNat, if rN.2.2 ≥ 0 then some rN.2.2.toNat else none⟩ else none⟩])
+
 /-- the outer `on_chunk` closure (helpers.rs:780-1086) -/
 def combOnChunk (cfg : CombCfg) (st : CombSt) (chunk : Option Text) (m : Mapping) : CombSt × List Ev :=
   let sourceIndex : Int := match m.orig with | some o => o.src | none => -1
@@ -174,71 +247,7 @@ def combOnChunk (cfg : CombCfg) (st : CombSt) (chunk : Option Text) (m : Mapping
     | some idx =>
       let ld := st.lineData.getD (origLine.toNat - 1) {}
       let seg := ld.segs.getD idx default
-      if seg.src ≥ 0 then
-        let isi := seg.src.toNat
-        let innerChunk := ld.chunks.getD idx []
-        let loc := origCol - seg.gc
-        -- identity-mapping check: may advance the original column
-        let adj : Bool :=
-          if loc > 0 then
-            match innerContentLines st isi with
-            | some lines =>
-              -- `(inner_original_line as usize).wrapping_sub(1)`: fix F5
-              if seg.line ≤ 0 then false else
-              match lines[seg.line.toNat - 1]? with
-              | some ln =>
-                let oc := csub ln seg.col.toNat (seg.col.toNat + loc.toNat)
-                oc.length ≤ innerChunk.length && bget innerChunk 0 oc.length == some oc
-              | none => false
-            | none => false
-          else false
-        let ioc : Int := if adj then seg.col + loc else seg.col
-        let ini : Int := if adj then -1 else seg.name
-        -- global source index
-        let si0 : Int := (st.innerSourceIndexMapping[isi]?).getD (-2)
-        let (st1, evS, si) : CombSt × List Ev × Int :=
-          if si0 == -2 then
-            let (source, content) := (st.innerSourceIndexValueMapping[isi]?).getD ([], none)
-            let (sm, evs, g) := globalSource st.sourceMapping source content
-            ({ st with sourceMapping := sm, innerSourceIndexMapping := lmInsert 0 st.innerSourceIndexMapping isi g }, evs, (g : Int))
-          else (st, [], si0)
-        -- global name index
-        let (st2, evN, fni) : CombSt × List Ev × Int :=
-          if ini ≥ 0 then
-            let f0 : Int := (st1.innerNameIndexMapping[ini.toNat]?).getD (-2)
-            if f0 == -2 then
-              match st1.innerNameIndexValueMapping[ini.toNat]? with
-              | some name =>
-                let (nm, evs, g) := globalName st1.nameMapping name
-                ({ st1 with nameMapping := nm, innerNameIndexMapping := lmInsert 0 st1.innerNameIndexMapping ini.toNat g }, evs, (g : Int))
-              | none =>
-                ({ st1 with innerNameIndexMapping := lmInsert 0 st1.innerNameIndexMapping ini.toNat (-1) }, [], -1)
-            else (st1, [], f0)
-          else if nameIndex ≥ 0 then
-            match innerContentLines st1 isi with
-            | some lines =>
-              -- `unwrap_or_default()`: fix F5
-              let name := st1.nameIndexValueMapping.getD nameIndex.toNat []
-              let origName : Text :=
-                if seg.line ≤ 0 then [] else
-                match lines[seg.line.toNat - 1]? with
-                | some ln => csub ln ioc.toNat (ioc.toNat + name.length)
-                | none => []
-              if name == origName then
-                let f0 : Int := (st1.nameIndexMapping[nameIndex.toNat]?).getD (-2)
-                if f0 == -2 then
-                  match st1.nameIndexValueMapping[nameIndex.toNat]? with
-                  | some name =>
-                    let (nm, evs, g) := globalName st1.nameMapping name
-                    ({ st1 with nameMapping := nm, nameIndexMapping := lmInsert 0 st1.nameIndexMapping nameIndex.toNat g }, evs, (g : Int))
-                  | none =>
-                    ({ st1 with nameIndexMapping := lmInsert 0 st1.nameIndexMapping nameIndex.toNat (-1) }, [], -1)
-                else (st1, [], f0)
-              else (st1, [], -1)
-            | none => (st1, [], -1)
-          else (st1, [], -1)
-        (st2, evS ++ evN ++ [.chunk chunk ⟨m.gl, m.gc,
-            if si ≥ 0 then some ⟨si.toNat, seg.line.toNat, ioc.toNat, if fni ≥ 0 then some fni.toNat else none⟩ else none⟩])
+      if seg.src ≥ 0 then combFound st chunk m seg (ld.chunks.getD idx []) origCol nameIndex
       else combNoInner cfg st chunk m sourceIndex origLine origCol nameIndex
   else combPass st chunk m sourceIndex origLine origCol nameIndex
 
